@@ -139,7 +139,9 @@ var e2eReqHeaders = []string{"X-Custom-A", "x-custom-b", "Accept", "User-Agent",
 var hopByHop = []string{"Keep-Alive", "Proxy-Authenticate", "Proxy-Authorization", "Te", "Trailer", "Proxy-Connection"}
 var headerVals = []string{"v", "a, b", "x=y; z", "text/plain", "\"etag\"", "é", "application/json", "identity", "a b"}
 
-var e2eRespHeaders = []string{"X-Resp-A", "Set-Cookie", "Content-Type", "Cache-Control", "Warning", "Location", "Etag", "X-Kubernetes-Pf-Flowschema-Uid", "Retry-After", "Www-Authenticate", "Content-Language"}
+var e2eRespHeaders = []string{"X-Resp-A", "Set-Cookie", "Content-Type", "Cache-Control", "Warning", "Location", "Etag", "X-Kubernetes-Pf-Flowschema-Uid", "Retry-After", "Www-Authenticate", "Content-Language",
+	"Access-Control-Allow-Origin", "Access-Control-Allow-Credentials", "Access-Control-Allow-Methods", "Access-Control-Allow-Headers", "Access-Control-Expose-Headers", "Access-Control-Max-Age",
+	"Vary", "Link", "Server", "Via", "Age", "Expires", "Last-Modified", "Accept-Ranges", "Content-Disposition", "Strict-Transport-Security", "X-Frame-Options", "Alt-Svc", "Audit-Id", "X-Kubernetes-Pf-Prioritylevel-Uid"}
 
 func genBody(t *rapid.T, label string) []byte {
 	var n int
